@@ -16,6 +16,17 @@ def gen_case(seed, extra=None):
     rng = _random.Random(seed)
     if rng.random() < 0.12:
         return _gen_sampler_case(rng, seed)
+    first = _gen_lockstep(rng, seed)
+    if rng.random() < 0.2:
+        # several programs simulated one after the other in the same interpreter (as the CLI does for several files)
+        seq = [first] + [_gen_lockstep(rng, seed + 1 + i) for i in range(rng.choice([1, 1, 2]))]
+        if rng.random() < 0.5:
+            seq.append(dict(seq[0]))      # the first program once more
+        return {"kind": "sequence", "cases": seq, "seed": seed}
+    return first
+
+
+def _gen_lockstep(rng, seed):
     prog = gen.gen_c12_program(rng)
     vs = sorted(_init_vars(prog))
     ng = rng.choice([0, 1, 1, 2])
@@ -64,14 +75,44 @@ def _gen_sampler_case(rng, seed):
     return {"kind": "sampler", "family": fam, "params": d[2], "state": st, "seed": seed, "kmax": rng.choice([2, 3, 4])}
 
 
-def run_case(case, extra=None):
+def _run_in_child(case):
     from . import c12
 
     if case["kind"] == "sampler":
         r = c12.run_sampler_case(case)
+    elif case["kind"] == "sequence":
+        subs = [c12.run_case(c) for c in case["cases"]]
+        bad = [i for i, x in enumerate(subs) if x.get("outcome") == "violation"]
+        r = dict(subs[bad[0]] if bad else subs[-1])
+        r["sub_outcomes"] = [x.get("outcome") for x in subs]
+        r["violating_index"] = bad[0] if bad else None
+        r["draws"] = sum(x.get("draws", 0) for x in subs)
+        r["sequence_len"] = len(subs)
+        r["digest"] = c12._digest([x.get("digest") for x in subs])
+        if not bad:
+            r["outcome"] = "ok" if any(x.get("outcome") == "ok" for x in subs) else subs[-1].get("outcome")
     else:
         r = c12.run_case(case)
     r["kind"] = case["kind"]
+    return r
+
+
+_preloaded = False
+
+
+def run_case(case, extra=None):
+    """every case runs in a child forked from the pristine worker: no state of Polar survives from one case to the next"""
+    global _preloaded
+    from . import world
+    if not _preloaded:
+        import inputparser, simulation, program.distribution, cli.actions.simulation_action  # noqa
+        from . import c12, rngseam  # noqa
+        _preloaded = True
+    r = world.fork_call(_run_in_child, case, timeout=300)
+    if r.get("status") in ("child_timeout", "child_died"):
+        return {"outcome": "timeout" if r["status"] == "child_timeout" else "harness_error", "kind": case["kind"], "trace": r["status"]}
+    if r.get("status") == "harness_error":
+        return {"outcome": "harness_error", "kind": case["kind"], "trace": r.get("trace")}
     return r
 
 
@@ -114,6 +155,17 @@ def _get_list(prog, path):
 
 def _variants(case):
     """candidate simplifications, most aggressive first"""
+    if case["kind"] == "sequence":
+        cs = case["cases"]
+        for i in range(len(cs)):
+            if len(cs) > 1:
+                c = copy.deepcopy(case)
+                del c["cases"][i]
+                if len(c["cases"]) == 1:
+                    yield c["cases"][0]
+                else:
+                    yield c
+        return
     if case["kind"] != "lockstep":
         return
     if case["samples"] > 1:
@@ -180,6 +232,11 @@ def shrink(case, extra=None):
     if cur["kind"] == "lockstep":
         cur["script"] = base.get("script", cur.get("script"))
         cur["policy"] = "script"
+    if cur["kind"] == "sequence":
+        # keep the programs up to the violating one
+        vi = base.get("violating_index")
+        if vi is not None:
+            cur["cases"] = cur["cases"][:vi + 1]
     curres = base
     steps = 0
     improved = True
@@ -218,7 +275,9 @@ def summarize(results, tier):
     samples = []
     notes = Counter()
     for r in results:
-        if r.get("kind") == "lockstep" and r.get("outcome") in ("ok", "violation"):
+        if r.get("kind") in ("lockstep", "sequence") and r.get("outcome") in ("ok", "violation"):
+            if r.get("kind") == "sequence":
+                probes["multi_program_sequences"] += 1
             p = r.get("probes", {})
             for k, v in p.items():
                 if k == "families":
@@ -240,7 +299,7 @@ def summarize(results, tier):
                 samples.append({"family": r.get("family"), "values": r.get("values"), "seed": r.get("seed")})
         for n in r.get("notes", []) or []:
             notes[n.split(":")[0][:60]] += 1
-    nontrivial = len([1 for r in results if r.get("kind") == "lockstep" and r.get("outcome") == "ok" and r.get("draws", 0) >= 1])
+    nontrivial = len([1 for r in results if r.get("kind") in ("lockstep", "sequence") and r.get("outcome") == "ok" and r.get("draws", 0) >= 1])
     cov = {
         "evaluations": len(results),
         "distinct_nontrivial": len({p for p in paths if p[0]}),
